@@ -169,8 +169,10 @@ pub fn locate(leaves: &[Leaf], msg: &[u8]) -> Result<Located, String> {
                 }
                 bytes as usize
             } else if leaf.k == "pad" {
+                // alignment is relative to the start of the enclosing group (itself aligned in its message)
                 let u = leaf.unit.max(1) as usize;
-                (u - cursor % u) % u
+                let rel = cursor - groups[gi].start;
+                (u - rel % u) % u
             } else if leaf.k == "rest" {
                 let res = tail_reserved(&leaf.g);
                 if gend < cursor + res {
@@ -367,6 +369,30 @@ pub fn mutate(leaves: &[Leaf], lo: &Located, msg: &[u8], i: usize, m: &str) -> O
                 }
             }
             Some(out)
+        }
+        "dup_fill_empty" => {
+            // the smallest legal instance of the element (every variable part emptied), repeated to ~60 KB
+            let g = innermost_group(leaves, lo, i)?.clone();
+            let members: Vec<usize> = (g.first_leaf..leaves.len())
+                .take_while(|&j| is_prefix(&g.path, &leaves[j].g))
+                .filter(|&j| leaves[j].k == "var" || leaves[j].k == "rest")
+                .collect();
+            let mut cur = msg.to_vec();
+            let mut cur_lo = lo.clone();
+            let mut changed = false;
+            for j in members {
+                if let Some(next) = mutate(leaves, &cur_lo, &cur, j, "empty") {
+                    if let Ok(l2) = locate(leaves, &next) {
+                        cur = next;
+                        cur_lo = l2;
+                        changed = true;
+                    }
+                }
+            }
+            if !changed {
+                return None;
+            }
+            mutate(leaves, &cur_lo, &cur, i, "dup_fill")
         }
         "empty" => {
             if loc.w == 0 {
